@@ -54,6 +54,10 @@ STRENGTH = {
     "C15-m7": "rebased after the repairs in ssd.go; caught by the kill / restart cycles",
     "C15-m8": "missed at first; caught after messages published 40 days ago with a ttl of one year",
     "C18-m7": "caught because the harness run did not end in time (missing packets); no failing input shown",
+    "C06-m10": "missed at first; caught after emitter/history/ requests are paged through the real handler with startFromID (filters shallower than the stored channel)",
+    "C09-m10": "missed at first (the inflated id lengths were too rare and too small); caught after every third survey request announces a large id length behind a well-formed ssid",
+    "C11-m10": "missed at first; caught after SUBSCRIBE requests with wildcards under and over the extendable key's channel",
+    "C14-m9": "missed at first; caught after ban / unban toggles that arrive from another broker between the requests",
     "C01-m6": "missed at first; caught after share groups of 129-300 members that are looked up, dissolved and followed by lookups of lone members",
     "C03-m5": "missed at first; caught after keys expiring at the edges of the 32-bit expiry field (2010, 2106-2146, clamped dates)",
     "C03-m6": "not seen by C03 / C14 (the alternate spelling decrypts to the same key); caught by C20 (the decoder must reject characters outside its alphabet)",
